@@ -156,10 +156,13 @@ def doc_check(res, rnd, uni, imsgs, smsgs):
                         continue
                     ok = False
                     sok, shapes = side[i]
-                    zero = not uni[i]['args']
-                    if sok or not zero or not shapes:
+                    # impl == model has been established above for this text; C05_simplified_means_doc says model == denote wherever
+                    # side_ok holds, so a difference there contradicts the theorem (harness/model defect) and a difference where side_ok
+                    # is false is the recorded D11 family: an argument list with an all-accepting item evaluated on NO arguments -
+                    # a message without arguments, or the argument-less `.new` / `.destroyed` pseudo-message
+                    if sok or not shapes:
                         res.disagree('the matcher selects a message its documented meaning does not (or the reverse)', {'text': t, 'tree': e, 'message': uni[i]},
-                                     d, a, sig={'entry': 'doc', 'category': 'T2', 'text': t, 'side_ok': sok, 'zero_args': zero},
+                                     d, a, sig={'entry': 'doc', 'category': 'T2', 'text': t, 'side_ok': sok},
                                      theorem='C05_simplified_means_doc / C05_main')
                     else:
                         seen_shapes.add(max(shapes))
